@@ -3,7 +3,8 @@ From Coq Require Import NArith List Bool.
 From Verif Require Import Sx Str Tok.
 From Verif.Gen Require Import Encodings.
 From Verif.Model Require Import C06.
-From Verif.Proofs Require Import C06.
+From Verif.Proofs Require Import C06 C06content.
+From Verif.Spec Require Import ContentCharset.
 Import ListNotations.
 Local Open Scope N_scope.
 
@@ -34,6 +35,12 @@ Theorem c06_meta_x_user_defined_is_windows_1252 : forall raw e,
   detect_meta raw = Some e -> str_eqb e [120;45;117;115;101;114;45;100;101;102;105;110;101;100] = false.
 Proof. exact meta_never_x_user_defined. Qed.
 
+(* ContentAttrParser.parse -- positions into a byte string, StopIteration as an outcome -- computes, for EVERY
+   attribute value, what the standard's "algorithm for extracting a character encoding from a meta element"
+   (Spec/ContentCharset.v, a function on the list of characters) computes *)
+Theorem c06_content_charset_is_the_standard : forall v, content_charset v = extract_charset v.
+Proof. exact content_charset_is_the_standard. Qed.
+
 (* the prescan reads only the first 1024 bytes *)
 Theorem c06_prescan_window : forall raw, detect_meta raw = detect_meta (firstn (N.to_nat numBytesMeta) raw).
 Proof. exact prescan_window. Qed.
@@ -47,7 +54,8 @@ Proof. exact all_labels_resolve. Qed.
 
 (* PARTIAL: the prescan mini-parser itself (Model/C06.v: prescan) is a transcription tied to the code by
    exact-agreement correspondence; its agreement with the standard's prescan is decided by the search oracle
-   (standard's algorithm with six recorded deviations), not by a theorem; the late-<meta> reparse is not modelled. *)
+   (standard's algorithm with six recorded deviations), not by a theorem -- except for the content-attribute
+   parser, for which c06_content_charset_is_the_standard is that theorem; the late-<meta> reparse is not modelled. *)
 
 (* non-vacuity *)
 Example c06_example :
